@@ -3,6 +3,7 @@ import Driver.C20
 import Driver.C09
 import Driver.C05
 import Driver.C16
+import Driver.C17
 
 def main (args : List String) : IO UInt32 := do
   let stdin ← IO.getStdin
@@ -12,4 +13,5 @@ def main (args : List String) : IO UInt32 := do
   | ["c09"] => Driver.lineLoop stdin stdout (Zix.Bump.init 0 0) Driver.C09.step; return 0
   | ["c05"] => Driver.lineLoop stdin stdout (⟨Zix.Ring.new 1, none⟩ : Driver.C05.St) Driver.C05.step; return 0
   | ["c16"] => Driver.lineLoop stdin stdout ([] : List (List Nat)) Driver.C16.step; return 0
+  | ["c17"] => Driver.lineLoop stdin stdout () Driver.C17.step; return 0
   | _ => IO.eprintln "usage: zixdriver <component> < script"; return 2
